@@ -74,7 +74,9 @@ def select_one_or_select_many_or_infer(quantifier: Union[Type[An], Type[The], Ty
     if isinstance(entity_, (Entity, SetOf)):
         q = quantifier(entity_)
     elif isinstance(entity_, ResultQuantifier) and not properties:
-        q = entity_
+        # a predicate-form term with field constraints is already quantified with `an`, the requested quantifier takes
+        # over its description (otherwise the(T(From(d), f=v)) would silently stay an `an`)
+        q = entity_ if isinstance(entity_, quantifier) else quantifier(entity_._child_)
     elif isinstance(entity_, CanBehaveLikeAVariable):
         q = quantifier(entity(entity_, *properties))
     elif isinstance(entity_, (list, tuple)):
